@@ -34,7 +34,7 @@ func runC12(c *Ctx) {
 	c13TableCut(c, "C12-K7")
 	c12PrefixWithSeparator(c)
 	c12LimitsFitPrefix(c)
-	c12StartKeyIncluded(c)
+	c12StartKeyIncluded(c, "C12-K2")
 	nEnc := 0
 	for _, fn := range c.P.Funcs() {
 		if load.ShortPkg(fn.Pkg.PkgPath) != "rockredis" || fn.Decl.Body == nil {
@@ -447,7 +447,7 @@ func c12LimitsFitPrefix(c *Ctx) {
 // with the empty name). An iteration over the whole collection built from the Start/Stop encoder pair must therefore
 // be closed on the left: a left-open range skips that element (it survives a clear and reappears when the key is
 // re-created).
-func c12StartKeyIncluded(c *Ctx) {
+func c12StartKeyIncluded(c *Ctx, rule string) {
 	r := c.R
 	n := 0
 	lopen := atoi(c.W.Const("common.RangeLOpen"))
@@ -484,7 +484,7 @@ func c12StartKeyIncluded(c *Ctx) {
 		}
 		n++
 		v, _ := constant.Int64Val(tv.Value)
-		r.Check("C12-K2", construct, u.Pos(cs.S.Pos), int(v)&lopen == 0, "range type "+u.C.Term(cs.S.Call.Args[2])+" is open on the left: the element whose name is empty is skipped")
+		r.Check(rule, construct, u.Pos(cs.S.Pos), int(v)&lopen == 0, "range type "+u.C.Term(cs.S.Call.Args[2])+" is open on the left: the element whose name is empty is skipped")
 	}
-	r.Min("C12-K2", n, 5, "whole-collection iterations")
+	r.Min(rule, n, 5, "whole-collection iterations")
 }
